@@ -104,6 +104,24 @@ def generate(rng, idx, tier, variant):
             op['op'] = 'solve'
         elif r_ < 0.4:
             op['op'] = 'solve_period'
+        if rng.random() < 0.12 and opts['max_iter'] >= 1 and 'nope' not in (select or []):
+            # an exception out of user code part-way through the joint iteration (a linker hook, or one submodel's
+            # evaluation); nothing is prescribed for that call beyond the frame, but whatever it leaves behind must not
+            # show in the next, well-formed call - often the very same call again
+            import copy as _copy
+
+            bad = _copy.deepcopy(op)
+            where = rng.choice(['eb', 'ea'] + list(ids))
+            kf = rng.randint(1, max(1, min(opts['max_iter'], 3)))
+            bad['fault'] = {'where': where, 'k': kf, 'exc': rng.choice(['InjectedError', 'ZeroDivisionError', 'KeyError', 'fsic.SolutionError'])}
+            ops.append(bad)
+            if rng.random() < 0.3:
+                ops.append({'op': 'copy', 'route': rng.choice(['copy', 'copy.copy', 'deepcopy'])})
+            if rng.random() < 0.5:
+                op = _copy.deepcopy(op)
+                op['op'] = rng.choice(['solve_t', 'solve_t', 'solve', 'solve_period'])
+                if op['op'] != 'solve_t':
+                    op['t'] = tn
         ops.append(op)
         r = rng.random()
         if r < 0.15:
@@ -143,7 +161,7 @@ def make_linker_class(fsic, own):
     endo, exo, check = list(own['endo']), list(own['exo']), list(own['check'])
 
     def seam(self, hook, t, kw):
-        ctl = self.__dict__['_ctl']
+        ctl = probes.get_ctl(self)
         d = self.__dict__
         n = len(d['span'])
         tn = t + n if t < 0 else t
@@ -161,6 +179,9 @@ def make_linker_class(fsic, own):
             act = acts
         if act:
             a = act.get('a')
+            if a == 'raise':
+                rec['exc'] = act['exc']
+                raise probes.EXCEPTIONS[act['exc']](f"injected {act['exc']} in linker hook")
             if a == 'delta':
                 d['_L0'][t] = d['_L0'][t] + probes.fval(act['d'][0])
             elif a == 'link':
@@ -249,6 +270,8 @@ def execute(schedule, ctx):
             elif op['how'] == 'other-labels':
                 sp2['type'] = 'list_str' if sp2['type'] != 'list_str' else 'list_int'
             other_span = spans.make_span(sp2)
+            if op['how'] not in ('permuted', 'repeated', 'array-partial') and spans.describe(other_span) == spans.describe(spans.make_span(spec['span'])):
+                continue  # (the 'other' span came out equal to the linker's: nothing to reject)
             if op['how'] in ('permuted', 'repeated'):
                 # same length, same labels - in another order, or with one label repeated
                 items = spans.elements(spans.make_span(spec['span']))
@@ -348,9 +371,27 @@ def execute(schedule, ctx):
         if kind in ('solve', 'solve_period'):
             t = tn
         bus = []
-        probes.get_ctl(L).arm({'eb': op['lplan']['eb'], 'ea': op['lplan']['ea']}, bus, '_')
+        fault = op.get('fault')
+        lplan = {'eb': list(op['lplan']['eb']), 'ea': list(op['lplan']['ea'])}
+        plans = op['plans']
+        if fault:
+            import copy as _copy
+
+            plans = _copy.deepcopy(plans)
+            kf = fault['k']
+            if fault['where'] in ('eb', 'ea'):
+                acts = lplan[fault['where']]
+                while len(acts) < kf:
+                    acts.append({'a': 'noop'})
+                acts[kf - 1] = {'a': 'raise', 'exc': fault['exc']}
+            elif fault['where'] in plans:
+                ps = plans[fault['where']]['*'].setdefault('passes', [])
+                while len(ps) < kf:
+                    ps.append({'a': 'noop'})
+                ps[kf - 1] = {'a': 'raise', 'exc': fault['exc'], 'partial': 0}
+        probes.get_ctl(L).arm(lplan, bus, '_')
         for sid, sm in subs.items():
-            probes.get_ctl(sm).arm(op['plans'].get(sid), bus, sid)
+            probes.get_ctl(sm).arm(plans.get(sid), bus, sid)
         snap = snapshot_all(L)
         kw = S.solver_kwargs(opts)
         if select is not None:
@@ -394,6 +435,8 @@ def execute(schedule, ctx):
         if t < 0:
             ctx.probe('negative-t')
 
+        fired = bool(fault) and (any(r.get('exc') for r in probes.get_ctl(L).log) or any(r.get('exc') for sm in subs.values() for r in probes.get_ctl(sm).log))
+
         def unselected_untouched(sel):
             for sid in ids:
                 if sid in sel:
@@ -419,6 +462,20 @@ def execute(schedule, ctx):
                 chk('offset-out-of-span/nothing-changes', not allc, {'changed': allc[:6]})
             ctx.outcome(kind, 'offset-out:' + cls_out)
             ctx.log(step, kind, 'offset-out', cls_out)
+            continue
+
+        if fired:
+            # the injected exception got out of user code: the call has no prescribed outcome, but it must have stayed
+            # inside its frame - unselected submodels neither evaluated nor re-stamped, no other period touched
+            ctx.fault('exception-in-' + ('linker-hook' if fault['where'] in ('eb', 'ea') else 'submodel-pass'))
+            chk('fault/raises', out['kind'] == 'raise', {'got': cls_out, 'fault': fault})
+            unselected_untouched(selected)
+            for key in post:
+                bad = [c for c in ref_solver.diff_cells(snap[key], post[key]) if c[1] != tn]
+                chk('frame/other-periods-untouched', not bad, {'where': key, 'changed': bad[:6], 'after': 'fault'})
+            chk('status/alphabet', str(post['_']['status'][tn]) in ref_solver.ALPHABET, {'status': str(post['_']['status'][tn])})
+            ctx.log(step, kind, t, selected, 'fault', cls_out, [list(b[:2]) for b in bus])
+            ctx.outcome(kind, 'fault:' + cls_out)
             continue
 
         # ---- the start state after the offset copy (linker's own endogenous and every selected submodel's), by the
